@@ -346,6 +346,9 @@ func runC32(c *Ctx) {
 			if be, isBin := unparen(call.Args[1]).(*ast.BinaryExpr); isBin && be.Op == token.ADD {
 				if tv := info.Types[be.Y]; tv.Value != nil && tv.Value.ExactString() == `"/"` {
 					okForm = true
+					if _, picked := unparen(be.X).(*ast.IndexExpr); picked {
+						c.Violate(r1, fi.Name()+"->strings.HasPrefix:one-candidate", call.Pos(), "only one selected directory, picked by position ("+exprString(be.X)+"), is compared with the entry: the directory that contains a path is not necessarily its neighbour in sort order")
+					}
 				}
 			}
 			// equality alternative in the same condition
@@ -399,6 +402,12 @@ func runC32(c *Ctx) {
 						if be, isBin := unparen(hc.Args[1]).(*ast.BinaryExpr); isBin && be.Op == token.ADD {
 							if tv := hinfo.Types[be.Y]; tv.Value != nil && tv.Value.ExactString() == `"/"` {
 								helperOK = true
+								// the directory compared must range over the whole list; an element picked by position
+								// (a neighbour found by a search in sort order) is one candidate out of several: a directory
+								// sorts before what it contains, but not directly before it (a, a.txt, a/b)
+								if _, picked := unparen(be.X).(*ast.IndexExpr); picked {
+									c.Violate(r1, h.Name()+"->strings.HasPrefix:one-candidate", hc.Pos(), "only one selected directory, picked by position ("+exprString(be.X)+"), is compared with the entry: the directory that contains a path is not necessarily its neighbour in sort order (`a`, `a.txt`, `a/b`), so entries of selected directories are left out")
+								}
 							}
 						}
 					}
